@@ -737,7 +737,9 @@ func verif_contract_Session_ICMP6SendNeighbourSolicitation(h *Session, srcAddr A
 	// source link-layer address option carries the host NIC MAC
 	vEnsures(w[78] == 1 && w[79] == 1 && w[80] == h.NICInfo.HostAddr4.MAC[0] && w[81] == h.NICInfo.HostAddr4.MAC[1] && w[82] == h.NICInfo.HostAddr4.MAC[2] &&
 		w[83] == h.NICInfo.HostAddr4.MAC[3] && w[84] == h.NICInfo.HostAddr4.MAC[4] && w[85] == h.NICInfo.HostAddr4.MAC[5])
-	vEnsures(w[6] == h.NICInfo.HostAddr4.MAC[0] && w[11] == h.NICInfo.HostAddr4.MAC[5])
+	vEnsures(w[6] == h.NICInfo.HostAddr4.MAC[0] && w[7] == h.NICInfo.HostAddr4.MAC[1] && w[8] == h.NICInfo.HostAddr4.MAC[2] &&
+		w[9] == h.NICInfo.HostAddr4.MAC[3] && w[10] == h.NICInfo.HostAddr4.MAC[4] && w[11] == h.NICInfo.HostAddr4.MAC[5])
+	vEnsures(w[0] == dstAddr.MAC[0] && w[1] == dstAddr.MAC[1] && w[2] == dstAddr.MAC[2] && w[3] == dstAddr.MAC[3] && w[4] == dstAddr.MAC[4] && w[5] == dstAddr.MAC[5])
 	if dstAddr.IP.IsLinkLocalUnicast() || dstAddr.IP.IsLinkLocalMulticast() {
 		vEnsures(w[21] == 255)
 	}
@@ -758,7 +760,9 @@ func verif_contract_Session_ICMP6SendNeighborAdvertisement(h *Session, srcAddr A
 	vEnsures(spec_ip6_at(w, 62) == targetAddr.IP)
 	vEnsures(w[78] == 2 && w[79] == 1 && w[80] == targetAddr.MAC[0] && w[81] == targetAddr.MAC[1] && w[82] == targetAddr.MAC[2] &&
 		w[83] == targetAddr.MAC[3] && w[84] == targetAddr.MAC[4] && w[85] == targetAddr.MAC[5])
-	vEnsures(w[6] == h.NICInfo.HostAddr4.MAC[0] && w[11] == h.NICInfo.HostAddr4.MAC[5])
+	vEnsures(w[6] == h.NICInfo.HostAddr4.MAC[0] && w[7] == h.NICInfo.HostAddr4.MAC[1] && w[8] == h.NICInfo.HostAddr4.MAC[2] &&
+		w[9] == h.NICInfo.HostAddr4.MAC[3] && w[10] == h.NICInfo.HostAddr4.MAC[4] && w[11] == h.NICInfo.HostAddr4.MAC[5])
+	vEnsures(w[0] == dstAddr.MAC[0] && w[1] == dstAddr.MAC[1] && w[2] == dstAddr.MAC[2] && w[3] == dstAddr.MAC[3] && w[4] == dstAddr.MAC[4] && w[5] == dstAddr.MAC[5])
 	if dstAddr.IP.IsLinkLocalUnicast() || dstAddr.IP.IsLinkLocalMulticast() {
 		vEnsures(w[21] == 255)
 	}
